@@ -31,7 +31,7 @@ EV_OWNER = {"add": "C03", "c.match": "C03",
             "c.answer": "C02", "c.resp": "C02", "a.lookup": "C02",
             "w.timeout": "C04", "w.locked": "C04", "w.claimed": "C04", "c.timeout": "C04", "c.precleanup": "C04",
             "c.cleanup": "C04", "a.send": "C04", "a.sent": "C04", "a.dropped": "C04", "a.resp": "C04", "tick": "C04",
-            "end": "C04", "reset": "C04", "metrics": "C19", "m.locked": "C20", "debug": "C04"}
+            "end": "C04", "reset": "C04", "metrics": "C19", "journal": "C19", "m.locked": "C20", "debug": "C04"}
 
 
 def q(xs):
@@ -564,7 +564,7 @@ def pipeline(chk, owner, tier, seed, counts=None, herds=None, do_mc=True, mc_onl
                               {"scenario": by_id[sid], "events": evs})
             if not by_id[sid].get("novalidate"):
                 # what happened before the hang is still judged (C02 / C03 invariants on the recorded prefix)
-                ok_sc[sid] = [e for e in evs if e["ev"] not in ("end", "metrics")]
+                ok_sc[sid] = [e for e in evs if e["ev"] not in ("end", "metrics", "journal")]
             continue
         if by_id[sid].get("novalidate"):
             e = end[0]
